@@ -164,6 +164,8 @@ func genC07(e *emitter, tier string, seed int64) {
 		}
 	}
 	ints = append(ints, "00", "01", "010", "08", "0x", "0x0", "1_0", "1e3", "1E3", "1e+3", "1e-3", "1e", "1.", "1.5", "01.5", "0x1.8", "1.5e300", "1e309", "inf", "Inf", "nan", "NaN", "-inf", ".5", "5.", "0b1", "0o7", "1a", "99999999999999999999", "0x10000000000000000")
+	// (round 9) zero with a sign: the sign negates the literal, so the value is the negative zero
+	ints = append(ints, "0.0", "-0.0", "+0.0", "--0.0", "-0e0", "-0.", "-0.0e-5", "-1e-400", "1e-400", "-0.000", "- 0.0", "-00.0")
 	emitLits(e, ints, "numbers")
 	// floats: round trip of random float64 values
 	M := 20
